@@ -43,6 +43,17 @@ def keyset(ctx, fi: FuncInfo, e: ast.expr, within: Optional[set[str]] = None, de
             elif isinstance(n, (ast.ListComp, ast.SetComp, ast.DictComp, ast.GeneratorExp)):
                 gens = [(g.target, g.iter) for g in n.generators]
             for tg, it in gens:
+                if isinstance(tg, ast.Tuple) and tg.elts and isinstance(tg.elts[0], ast.Name) and tg.elts[0].id == e.id and isinstance(it, ast.Call) \
+                        and isinstance(it.func, ast.Attribute) and it.func.attr == "items" and not it.args:
+                    c = try_const(ctx, fi, it.func.value, default=_NO)
+                    if isinstance(c, dict):
+                        return set(c)
+                if isinstance(tg, ast.Name) and tg.id == e.id and isinstance(it, ast.BinOp) and isinstance(it.op, ast.BitAnd):
+                    for side in (it.left, it.right):
+                        base = side.func.value if isinstance(side, ast.Call) and isinstance(side.func, ast.Attribute) and side.func.attr == "keys" else side
+                        c = try_const(ctx, fi, base, default=_NO)
+                        if isinstance(c, (dict, set, frozenset, list, tuple)):
+                            return set(c)       # an intersection with a constant key set is a subset of it
                 if isinstance(tg, ast.Name) and tg.id == e.id:
                     c = try_const(ctx, fi, it, default=_NO)
                     if c is not _NO:
